@@ -46,6 +46,9 @@ SPECIES = {
                      tres=[1, 1, 2, 2, 2, 2], same=True),
     'big': dict(rn=9, rb=[(i, i + 1) for i in range(1, 9)], rres=[1] * 4 + [2] * 5, tn=23,
                 tb=[(i, i + 1) for i in range(1, 23)], tres=[1] * 10 + [2] * 13),
+    # a target of several hundred atoms (where a vectorised path with its own work arrays would take over)
+    'huge': dict(rn=6, rb=[(i, i + 1) for i in range(1, 6)], rres=[1] * 6, tn=640,
+                 tb=[(i, i + 1) for i in range(1, 640)], tres=[1] * 640),
 }
 
 
@@ -166,7 +169,7 @@ def replay(beh, workdir, seed):
     """-> None or (signature, record)"""
     from gaddlemaps import ExchangeMap
     rng = np.random.default_rng(seed)
-    spname = ['chain3', 'twores', 'ring', 'samename'][int(rng.integers(0, 4))] if rng.random() < 0.9 else 'big'
+    spname = ['chain3', 'twores', 'ring', 'samename'][int(rng.integers(0, 4))] if rng.random() < 0.9 else ('big' if rng.random() < 0.6 else 'huge')
     scale = float(rng.choice([0.5, 1.0, 0.3, 1.7]))
     w = World(spname, workdir, seed % 1000, scale)
     w.setup(2)
